@@ -248,20 +248,3 @@ def ident_of(r, nz):
             k = pos
         return (key[1], key[2], k)
     return None
-
-
-def other_params_method(self, delta=True, phi=True):
-    d = {
-        "T": TV(E.S("T"), 0, False, "parameter T"),
-        "tau": TV(E.S("tau"), 0, False, "parameter tau"),
-        "eta": TV(E.S("eta"), 0, False, "parameter eta"),
-        "kappa": TV(E.S("kappa"), 0, False, "parameter kappa"),
-    }
-    if delta:
-        d["delta"] = TV(E.S("delta"), 0, False, "parameter delta")
-    if phi:
-        d["phi"] = TV(E.S("phi"), 0, False, "parameter phi")
-    return d
-
-
-GWorld.other_params = other_params_method
